@@ -1,21 +1,24 @@
 #!/bin/bash
-# confirm_seed.sh <id> <seed-dir>: independently confirms a seeded fault in a scratch worktree:
+# confirm_seed.sh <Cxx> <seed-dir> : independently confirms a seeded change in a scratch worktree ($WT, default /tmp/wt-confirm;
+# created from /repo HEAD with a warm build cache copied from /tmp/wt-base if it does not exist):
 #   demo passes on the unmodified tree, fails with the patch; the existing suite passes with the patch.
-# Writes <seed-dir>/confirm.log and prints a one-line summary.
-id="$1"; dir="$2"; wt=${WT:-/tmp/wt-confirm}   # WT=<existing scratch worktree> reuses its warm build cache
+# Writes <seed-dir>/confirm.log and prints a one-line summary. REMOVE=1 removes the worktree afterwards.
+id="$1"; dir="$2"; wt=${WT:-/tmp/wt-confirm}
 export RUSTC_BOOTSTRAP=1 CARGO_NET_OFFLINE=true
 log="$dir/confirm.log"; : > "$log"
-if [ ! -d $wt ]; then git -C /repo worktree add -q --detach $wt HEAD && cp -r /tmp/target-base $wt/target; fi
+if [ ! -d $wt ]; then git -C /repo worktree add -q --detach $wt HEAD; fi
+if [ ! -d $wt/target ]; then cp -r /tmp/wt-base/target $wt/target; fi
+cp /tmp/wt-base/.cargo/config.toml $wt/.cargo/config.toml; git -C $wt update-index --assume-unchanged .cargo/config.toml
 cd $wt && git checkout -q -- . && git clean -qfd -e target && git checkout -q --detach "$(git -C /repo rev-parse HEAD)"
 cp "$dir/demo.rs" tests/seed_demo.rs
 echo "== demo on unmodified tree" >> "$log"
-cargo test --offline --test seed_demo >> "$log" 2>&1; base=$?
+timeout 3000 cargo test --offline --test seed_demo >> "$log" 2>&1; base=$?
 git apply "$dir/patch.diff" >> "$log" 2>&1 || { echo "$id: patch does not apply"; exit 1; }
 echo "== demo with patch" >> "$log"
-cargo test --offline --test seed_demo >> "$log" 2>&1; withp=$?
+timeout 3000 cargo test --offline --test seed_demo >> "$log" 2>&1; withp=$?
 rm -f tests/seed_demo.rs
 echo "== existing suite with patch" >> "$log"
-cargo test --workspace --no-fail-fast --offline >> "$log" 2>&1; suite=$?
-fails=$(grep -E "^test result: FAILED|failed;" "$log" | tail -3 | tr '\n' ' ')
+timeout 3000 cargo test --workspace --no-fail-fast --offline >> "$log" 2>&1; suite=$?
 git checkout -q -- .
 echo "$id: demo_unmodified_exit=$base demo_patched_exit=$withp suite_patched_exit=$suite" | tee -a "$log"
+if [ "${REMOVE:-0}" = 1 ]; then cd /; git -C /repo worktree remove --force $wt; fi
